@@ -1240,7 +1240,7 @@ SUBCHECKS = [
                   "draws 10..2.5e6 (int, 1-D, 2-D, 3-D shapes) tied to the deviation so that k*dev is 1/2..200; "
                   "non-trivial = >=2 distinct positive weights and k*dev >= 1 (the deviation of the total is worth at "
                   "least one whole draw)",
-             required_labels=("k*dev>=1", "k*dev>=4", "k*dev>=2_and_dev<=1e-5", "k*dev>=2_and_dev<=1e-3", "dev<=1e-12",
+             required_labels=("k*dev>=1", "k*dev>=4", "k*dev>=2_and_dev<=1e-5", "k*dev>=2_and_dev<=1e-3",
                               "total_near=1", "total_near_a_round_value_other_than_1", "mode=decimal", "mode=float32",
                               "k>=1e6", "total_above_round_value", "total_below_round_value", "size_form=2d")),
     SubCheck("tiled", check_tiled, tiled_case(), quick=1500, thorough=6000, shards_quick=2,
